@@ -99,8 +99,7 @@ def differ(a, b):
 def schedules(tier):
     alpha = ['P', 1, 2, 'ALL']
     out = [[]]
-    depth = 2 if tier == 'quick' else 3
-    for n in range(1, depth + 1):
+    for n in range(1, (2 if tier == 'quick' else 3) + 1):
         out += [list(s) for s in itertools.product(alpha, repeat=n)]
     # single-byte delivery with a Pending before every byte
     # single-byte delivery with a Pending before every byte (short messages: the run length grows with the schedule)
@@ -159,29 +158,49 @@ def run_async(ex, key, data, cons, sched):
 
 
 def compare(ex, cons, sync_res, async_res):
-    """returns None or a description of a disagreement (with model)"""
+    """returns None or a description of a disagreement (with model). Only overlapping (async path, blocking path)
+    pairs are examined: for each async path the blocking paths that share an input with it are enumerated through
+    models (the paths of one exploration are mutually exclusive), instead of testing all pairs."""
+    sync_conj = [z3.And(*ps) if ps else z3.BoolVal(True) for ps, _, _ in sync_res]
     for pa, sta, ra, polls in async_res:
-        for ps, sts, rs in sync_res:
-            sol = z3.Solver()
-            sol.set('timeout', 20000)
-            sol.add(*cons)
-            sol.add(*pa)
-            sol.add(*ps)
+        base = z3.Solver()
+        base.set('timeout', 20000)
+        base.add(*cons)
+        base.add(*pa)
+        guard = 0
+        while guard <= len(sync_res):
+            guard += 1
+            c = base.check()
+            if c != z3.sat:
+                if c == z3.unknown:
+                    raise Unsupported('solver unknown in comparison')
+                break
+            m = base.model()
+            hit = None
+            for j, cj in enumerate(sync_conj):
+                if z3.is_true(m.eval(cj, model_completion=True)):
+                    hit = j
+                    break
+            if hit is None:
+                break        # input outside the explored blocking paths (path budget): nothing to compare with
+            ps, sts, rs = sync_res[hit]
             if sta != sts:
-                if sol.check() == z3.sat:
-                    return 'async path ends in %s, blocking path in %s' % (sta, sts), sol.model()
-                continue
-            if sta != 'ret':
-                continue
-            d = differ(ra, rs)
-            if not d:
-                continue
-            sol.add(z3.Or(*d))
-            r = sol.check()
-            if r == z3.sat:
-                return 'returned values differ', sol.model()
-            if r == z3.unknown:
-                raise Unsupported('solver unknown in comparison')
+                return 'async path ends in %s, blocking path in %s' % (sta, sts), m
+            if sta == 'ret':
+                d = differ(ra, rs)
+                if d:
+                    sol = z3.Solver()
+                    sol.set('timeout', 20000)
+                    sol.add(*cons)
+                    sol.add(*pa)
+                    sol.add(*ps)
+                    sol.add(z3.Or(*d))
+                    r = sol.check()
+                    if r == z3.sat:
+                        return 'returned values differ', sol.model()
+                    if r == z3.unknown:
+                        raise Unsupported('solver unknown in comparison')
+            base.add(z3.Not(sync_conj[hit]))
     return None
 
 
@@ -223,7 +242,13 @@ def worker(job):
                     r['inputs'] += 1
                     sres = run_sync(ex, roots['s']['key'], data, cons)
                     for flavour in 'ta':
-                        for sc in (scheds if label == 'canonical' or tier != 'quick' else scheds[:6]):
+                        if tier != 'quick':
+                            use = scheds
+                        elif label == 'canonical':
+                            use = scheds
+                        else:
+                            use = scheds[:6] + [scheds[-1]]
+                        for sc in use:
                             ares = run_async(ex, roots[flavour]['key'], data, cons, sc)
                             r['runs'] += 1
                             bad = compare(ex, cons, sres, ares)
@@ -279,7 +304,7 @@ def run(tier, only=None):
             for fd in r['findings']:
                 ck.violation('%s/%s' % (r['path'], fd['kind']), fd['what'], dict(fd, message=r['path']), confirmed=True)
     ck.assume('read_exact futures (tokio ReadExact, async-std ReadExactFuture) are modelled from their documented contract (vf/models.py _rex_poll); the coroutine state machines of the tokio_/astd_ readers and helpers are executed from their MIR')
-    ck.assume('schedules: all sequences over {Pending, 1 byte, 2 bytes, everything} up to length 2 (quick) / 3 (thorough), plus single-byte delivery with and without a Pending before every byte; inputs: canonical encodings of the first shapes, truncations, arbitrary bytes of the same length')
+    ck.assume('schedules: all sequences over {Pending, 1 byte, 2 bytes, everything} up to length 2 (quick) / 3 (thorough), plus single-byte delivery with and without a Pending before every byte (quick: truncated / arbitrary inputs use the first six and the byte-by-byte schedule); inputs: canonical encodings of the first shapes, truncations, arbitrary bytes of the same length')
     ck.assume('write variants build a Vec with the same write_into_vec and hand it to write_all once (checked structurally by C01 on write_into_vec); world tokio/async-std header readers are the same source text as the sync ones checked in C02-C (not re-executed here)')
     return ck.finish({'states': max(tot['runs'], 1), 'transitions': max(tot['runs'] * 3, 1), 'traces_validated_against_impl': 0, 'messages': tot['messages'], 'inputs': tot['inputs'], 'async_runs_compared': tot['runs'],
                       'schedules_per_input': nsched, 'functions_encoded_count': len(fns), 'functions_encoded': sorted(f for f in fns if 'tokio' in f or 'astd' in f)[:60],
